@@ -279,7 +279,11 @@ def err_matches(mtoks, msg):
     if k == 'EDepth':
         return has(*KW['depth']) and f[0] in msg
     if k == 'EMissingKey':
-        return has(*KW['not found']) and ('${%s}' % f[0]) in msg and f[1] in msg and f[2] in msg
+        # names the reference, the parameter and -- outside the text of the reference, as a word -- the missing key
+        import re as _re
+        rest = msg.replace('${%s}' % f[0], ' ')
+        key_named = _re.search(r'(?<![A-Za-z0-9_])' + _re.escape(f[1]) + r'(?![A-Za-z0-9_])', rest) is not None
+        return has(*KW['not found']) and ('${%s}' % f[0]) in msg and key_named and f[2] in msg
     if k == 'ELookupSeq':
         return has(*KW['sequence']) and ('${%s}' % f[0]) in msg
     if k == 'ELookupKind':
@@ -463,6 +467,12 @@ def severity_of(mobs, iobs):
     if mk != ik:
         return 'fail'
     if mk == 'ok' or mk in ('tok', 'none', 'parseerr'):
+        return 'fail'
+    # both fail: an error that does not name what a property says it names (the missing key and the reference, the
+    # parameter of a conflict, the constant key, the missing class, the failing node, the colliding name) is a failing
+    # input of that property; differences in other error detail only break the correspondence
+    if mk == 'err' and any(k in mobs.split(' ')[1:4] for k in ('EMissingKey', 'EMerge', 'EConst', 'EClassNotFound', 'ENodeFailed',
+                                                              'EDuplicate', 'EIncludeLoop', 'ELoop', 'EDepth')):
         return 'fail'
     return 'corr'
 
